@@ -254,7 +254,8 @@ impl WorldB {
                 if self.slots[slot].client.is_some() {
                     obs.count("fault.client_crash_restart");
                 }
-                let variant = op.c % 5;
+                // (5 = sealed for a foreign protocol id, clear-text protocol field rewritten to the server's by the token holder)
+                let variant = if op.c == 5 { 5 } else { op.c % 5 };
                 let tid = if variant == 4 && self.slots[slot].epoch > 0 {
                     obs.count("probe.token_reused_for_new_client");
                     self.slots[slot].tid
